@@ -136,11 +136,108 @@ static void morph_membership(Gr& g, const Ctx& c, const NodeMap<Gr>& nm, const A
 }
 
 // ------------------------------------------------------------ LC_Morph_Graph
+// LC_Morph_Graph takes one page-pool page (2 MB, pre-faulted) per constructing thread for its edges and
+// never gives it back ("FIXME: this seems to leak" in createNode).  Thousands of graphs in one process
+// would exhaust memory, so the harness returns the pages to the pool after the graph is destroyed; the
+// derived class exists only to read the page list.
+template <class Gr>
+struct MorphPages : Gr {
+  std::vector<void*> pages() {
+    std::vector<void*> v;
+    for (unsigned t = 0; t < this->edgesL.size(); ++t)
+      for (auto* h = *this->edgesL.getRemote(t); h; h = h->next)
+        v.push_back(h);
+    return v;
+  }
+};
+template <class Gr>
+struct MorphHolder {
+  MorphPages<Gr>* g;
+  MorphHolder() : g(new MorphPages<Gr>()) {}
+  ~MorphHolder() {
+    std::vector<void*> v = g->pages();
+    delete g;
+    for (void* p : v)
+      galois::runtime::pagePoolFree(p);
+  }
+};
+
 template <class Gr>
 static void run_lcmorph_t(const Ctx& c) {
   typedef typename Gr::edge_data_type E;
-  Gr g;
+  MorphHolder<Gr> holder;
+  Gr& g = *holder.g;
   NodeMap<Gr> nm;
+  if (c.kind == K_LCMORPH_API) {
+    // the graph is built from the edge list with the node/edge creation calls; node i and the edges
+    // leaving it are created by thread i % threads (createNode reserves the node's degree)
+    typedef typename Gr::GraphNode GN;
+    bool dedup = (c.opts >> 4) & 1; // addEdge: "adds an edge if it doesn't already exist"
+    std::vector<GN> h(c.n);
+    galois::on_each([&](unsigned tid, unsigned total) {
+      for (uint32_t i = tid; i < c.n; i += total)
+        h[i] = g.createNode((int)c.adj[i].size());
+    });
+    for (uint32_t i = 0; i < c.n; ++i) {
+      CCHECK(nm.idx.emplace(h[i], i).second, "node-dup", "createNode returned the same handle for nodes %u and %u", nm.idx[h[i]], i);
+      nm.nodes.push_back(h[i]);
+    }
+    Adj model(c.n);
+    for (uint32_t i = 0; i < c.n; ++i)
+      for (auto& e : c.adj[i])
+        if (!dedup || !has_edge(model, i, e.dst))
+          model[i].push_back(e);
+    galois::on_each([&](unsigned tid, unsigned total) {
+      for (uint32_t i = tid; i < c.n; i += total)
+        for (auto& e : c.adj[i]) {
+          if constexpr (std::is_void<E>::value) {
+            if (dedup)
+              g.addEdge(h[i], h[e.dst], galois::MethodFlag::UNPROTECTED);
+            else
+              g.addMultiEdge(h[i], h[e.dst], galois::MethodFlag::UNPROTECTED);
+          } else {
+            if (dedup)
+              g.addEdge(h[i], h[e.dst], galois::MethodFlag::UNPROTECTED, make_val<E>(e.data));
+            else
+              g.addMultiEdge(h[i], h[e.dst], galois::MethodFlag::UNPROTECTED, make_val<E>(e.data));
+          }
+        }
+    });
+    Ctx d = c;
+    d.m   = 0;
+    for (auto& l : model)
+      d.m += l.size();
+    NodeMap<Gr> it;
+    collect_nodes(g, d, it);
+    for (uint32_t i = 0; i < c.n; ++i)
+      CCHECK(it.idx.count(h[i]), "node-count", "the handle created for node %u is not visited by begin()..end()", i);
+    Adj got = observe_out(g, d, nm, d.flag(), c.m + 1);
+    check_adj(d, got, model, false, "out-edges", dedup ? "built with createNode/addEdge" : "built with createNode/addMultiEdge");
+    check_node_data(g, d, nm, got, c.m + 1);
+    morph_membership(g, d, nm, got);
+    // removeEdge on some nodes: one presented edge goes, the others stay
+    int step = 0;
+    for (int op : c.ops) {
+      ++step;
+      if (op != OP_SORT_SOME_DST && op != OP_TRANSPOSE)
+        continue;
+      Adj want = got;
+      for (uint32_t i = 0; i < c.n; ++i)
+        if (!got[i].empty() && (prf(c.aseed, i, step) & 1)) {
+          size_t k = (size_t)(prf(c.aseed, i, step, 7) % got[i].size());
+          g.removeEdge(h[i], g.edge_begin(h[i], d.flag()) + k, galois::MethodFlag::UNPROTECTED);
+          want[i].erase(want[i].begin() + k);
+          --d.m;
+        }
+      got = observe_out(g, d, nm, d.flag(), c.m + 1);
+      check_adj(d, got, want, false, "removeEdge", "after removeEdge on some nodes");
+      morph_membership(g, d, nm, got);
+    }
+    for (uint32_t u = 0; u < c.n && u < 64; ++u)
+      check_edge_range(g, d, nm.nodes[u], u, g.edges(nm.nodes[u], d.flag()), "edges");
+    check_local_ranges(g, d, nm);
+    return;
+  }
   if (c.kind == K_LCMORPH_AUX) {
     // the steps of readGraph's aux dispatch, keeping the id -> handle array
     G::FileGraph f;
